@@ -348,6 +348,7 @@ func footprint(ps pkgs, paths []string) {
 	type w struct{ pkg, v, fn, kind string }
 	var vars []string
 	var writes []w
+	var aliases []w
 	for _, path := range paths {
 		p := ps.get(path)
 		globals := map[types.Object]bool{}
@@ -399,6 +400,7 @@ func footprint(ps pkgs, paths []string) {
 					}
 				}
 				short := path[strings.LastIndex(path, "/")+1:]
+				aliasRows(p, globals, fd, short, fname, func(v, kind string) { aliases = append(aliases, w{short, v, fname, kind}) })
 				ast.Inspect(fd.Body, func(n ast.Node) bool {
 					switch x := n.(type) {
 					case *ast.AssignStmt:
@@ -453,6 +455,177 @@ func footprint(ps pkgs, paths []string) {
 	}
 	emit("%s", strings.Join(rows, ";\n"))
 	emit("].")
+	emit("(* Aliases: uses of package-level variables of reference type (slice, map, pointer, channel), directly or through a")
+	emit("   local variable assigned from one, in a position from which the shared backing store can be written:")
+	emit("   arg:<callee> / store / append / addr / return / alias (the assignment to the local itself) *)")
+	sort.Slice(aliases, func(i, j int) bool {
+		a, b := aliases[i], aliases[j]
+		return a.pkg+a.v+a.fn+a.kind < b.pkg+b.v+b.fn+b.kind
+	})
+	emit("Definition global_aliases : list (string * string * string * string) := [")
+	rows = nil
+	seen = map[string]bool{}
+	for _, x := range aliases {
+		r := fmt.Sprintf("  (%q, %q, %q, %q)", x.pkg, x.v, x.fn, x.kind)
+		if !seen[r] {
+			seen[r] = true
+			rows = append(rows, r)
+		}
+	}
+	emit("%s", strings.Join(rows, ";\n"))
+	emit("].")
+}
+
+func isRefType(t types.Type) bool {
+	switch t.Underlying().(type) {
+	case *types.Slice, *types.Map, *types.Pointer, *types.Chan:
+		return true
+	}
+	return false
+}
+
+// aliasRows reports, for one function, every use of a package-level variable of reference type - or of a local
+// variable assigned from one (one level of aliasing, flow-insensitive, to a fixpoint) - that can lead to a write
+// of the shared backing store.
+func aliasRows(p *packages.Package, globals map[types.Object]bool, fd *ast.FuncDecl, short, fname string, add func(v, kind string)) {
+	obj := func(id *ast.Ident) types.Object {
+		if o := p.TypesInfo.Uses[id]; o != nil {
+			return o
+		}
+		return p.TypesInfo.Defs[id]
+	}
+	tainted := map[types.Object]string{} // local -> name of the global it may alias
+	// the value expression denotes the variable's backing store: the variable itself or a slice of it
+	var source func(e ast.Expr) (string, bool)
+	source = func(e ast.Expr) (string, bool) {
+		switch x := e.(type) {
+		case *ast.ParenExpr:
+			return source(x.X)
+		case *ast.SliceExpr:
+			return source(x.X)
+		case *ast.Ident:
+			o := obj(x)
+			if o == nil {
+				return "", false
+			}
+			if globals[o] && isRefType(o.Type()) {
+				return o.Name(), true
+			}
+			if g, ok := tainted[o]; ok {
+				return g, true
+			}
+		case *ast.SelectorExpr:
+			if o := p.TypesInfo.Uses[x.Sel]; o != nil && globals[o] && isRefType(o.Type()) {
+				return o.Name(), true
+			}
+		}
+		return "", false
+	}
+	for changed := true; changed; {
+		changed = false
+		ast.Inspect(fd.Body, func(n ast.Node) bool {
+			switch x := n.(type) {
+			case *ast.AssignStmt:
+				if len(x.Lhs) == len(x.Rhs) {
+					for i, l := range x.Lhs {
+						if id, ok := l.(*ast.Ident); ok {
+							if g, ok := source(x.Rhs[i]); ok {
+								if o := obj(id); o != nil && !globals[o] {
+									if _, have := tainted[o]; !have {
+										tainted[o] = g
+										changed = true
+									}
+								}
+							}
+						}
+					}
+				}
+			case *ast.ValueSpec:
+				if len(x.Names) == len(x.Values) {
+					for i, id := range x.Names {
+						if g, ok := source(x.Values[i]); ok {
+							if o := obj(id); o != nil {
+								if _, have := tainted[o]; !have {
+									tainted[o] = g
+									changed = true
+								}
+							}
+						}
+					}
+				}
+			}
+			return true
+		})
+	}
+	for o, g := range tainted {
+		_ = o
+		add(g, "alias")
+	}
+	calleeName := func(c *ast.CallExpr) string {
+		switch f := c.Fun.(type) {
+		case *ast.Ident:
+			return f.Name
+		case *ast.SelectorExpr:
+			if x, ok := f.X.(*ast.Ident); ok {
+				return x.Name + "." + f.Sel.Name
+			}
+			return f.Sel.Name
+		case *ast.IndexExpr: // generic instantiation
+			if s, ok := f.X.(*ast.SelectorExpr); ok {
+				if x, ok := s.X.(*ast.Ident); ok {
+					return x.Name + "." + s.Sel.Name
+				}
+			}
+		}
+		return "?"
+	}
+	ast.Inspect(fd.Body, func(n ast.Node) bool {
+		switch x := n.(type) {
+		case *ast.AssignStmt:
+			for _, l := range x.Lhs {
+				if ix, ok := l.(*ast.IndexExpr); ok {
+					if g, ok := source(ix.X); ok {
+						if id, isId := ix.X.(*ast.Ident); !isId || !globals[obj(id)] { // direct stores are in global_writes
+							add(g, "store")
+						}
+					}
+				}
+			}
+		case *ast.CallExpr:
+			name := calleeName(x)
+			for i, a := range x.Args {
+				g, ok := source(a)
+				if !ok {
+					continue
+				}
+				switch {
+				case name == "len" || name == "cap":
+				case name == "append" && i == 0:
+					add(g, "append")
+				case name == "copy" && i == 0:
+					add(g, "store")
+				case name == "copy":
+				default:
+					add(g, "arg:"+name)
+				}
+			}
+		case *ast.UnaryExpr:
+			if x.Op == token.AND {
+				if ix, ok := x.X.(*ast.IndexExpr); ok {
+					if g, ok := source(ix.X); ok {
+						add(g, "addr")
+					}
+				}
+			}
+		case *ast.ReturnStmt:
+			for _, r := range x.Results {
+				if g, ok := source(r); ok {
+					add(g, "return")
+				}
+			}
+		}
+		return true
+	})
 }
 
 func main() {
